@@ -21,7 +21,8 @@ tvars == <<l, cur, groups>>
 
 HL(p) == p[1] * 16777216 + p[2]            \* [hi, lo] pairs (values used here stay below 2^31)
 Has(r, k) == k \in DOMAIN r
-NoRun == [new |-> [ret |-> "none"], units |-> 0, werr |-> FALSE, wpanic |-> FALSE, fin |-> [ret |-> "none"]]
+\* werr: some write was refused; wunexp: a write was refused although it did not pass a declared total (nothing entitles a writer to that)
+NoRun == [new |-> [ret |-> "none"], units |-> 0, werr |-> FALSE, wunexp |-> FALSE, wpanic |-> FALSE, fin |-> [ret |-> "none"]]
 
 Min2(a, b) == IF a < b THEN a ELSE b
 RECURSIVE Canon(_, _)
@@ -145,6 +146,8 @@ C15Rules(r, f) ==
           <<"C15.no-panic", r.fin.ret # "panic" /\ ~r.wpanic>>,
           <<"C15.valid-works", (ValidParams(r.new) /\ r.new.ret = "ok" /\ whole >= 1 /\ ~r.werr /\ ~r.wpanic /\ (decl = -1 \/ decl = whole))
                                   => (r.fin.ret = "ok" /\ Has(f, "roundtrip") /\ f.roundtrip = "ok")>>,
+          \* a writer made from documented values takes what it is given as long as a declared total is not passed
+          <<"C15.valid-writes-accepted", (ValidParams(r.new) /\ r.new.ret = "ok") => ~r.wunexp>>,
           <<"C15.overfill-reported", (r.new.ret = "ok" /\ decl > 0 /\ whole > decl) => anyerr>>,
           <<"C15.underfill-reported", (r.new.ret = "ok" /\ decl > 0 /\ whole < decl /\ ~r.wpanic) => r.fin.ret = "err">>,
           <<"C15.exact-ok", (r.new.ret = "ok" /\ decl > 0 /\ whole = decl /\ ~r.werr /\ ~r.wpanic) =>
@@ -178,7 +181,10 @@ Next ==
                                         IF rs[i][2] THEN TRUE ELSE PrintT(<<"REJECT", e.run, l, rs[i][1]>>)
                  ELSE TRUE
          [] e.ev = "write" ->
-              /\ cur' = [cur EXCEPT !.units = @ + (IF e.ret = "ok" THEN e.n ELSE 0), !.werr = @ \/ e.ret = "err"]
+              /\ cur' = [cur EXCEPT !.units = @ + (IF e.ret = "ok" THEN e.n ELSE 0), !.werr = @ \/ e.ret = "err",
+                                     !.wunexp = @ \/ (e.ret = "err" /\ ~cur.werr
+                                                      /\ (cur.new.declared = <<>> \/ cur.new.declared[1] >= 100          \* (declared beyond 2^30: never reached here)
+                                                          \/ cur.units + e.n <= HL(cur.new.declared)))]
               /\ UNCHANGED groups
          [] e.ev = "panic" -> cur' = [cur EXCEPT !.wpanic = TRUE] /\ UNCHANGED groups
          [] e.ev = "finalize" -> cur' = [cur EXCEPT !.fin = e] /\ UNCHANGED groups
